@@ -38,6 +38,6 @@ mod verif_kani {
         let t = truncate(s, max);
         assert!(t.len() <= max || t.len() == s.len());
         assert!(s.is_char_boundary(t.len()));
-        kani::cover!(t.len() == 3);
+        kani::cover!(t.len() == 2);
     }
 }
